@@ -167,7 +167,8 @@ fn oracle(c: &Case, acc: &mut Acc) -> CaseResult {
                     if *kind == 3 || *kind == 4 {
                         // longer than 65535 bytes / shorter than a tag: rejected, nothing moves
                         ensure!(res.is_err(), "{ctx}: a message of {} bytes was accepted: {res:?}", msg.len());
-                        ensure!(*kind == 4 || evs.is_empty(), "{ctx}: an oversize message reached the cipher: {evs:?}");
+                        // (whether an oversize message reaches the cipher is a framing question, C14)
+                        ensure!(evs.iter().all(|ev| !matches!(ev, Ev::Dec { nonce, .. } if *nonce != n)), "{ctx}: the cipher was handed another nonce than the counter {n}: {evs:?}");
                         seen_fail = true;
                     } else if *kind == 2 {
                         ensure!(res.is_err() && evs.is_empty(), "{ctx}: undersized payload buffer: {res:?} {evs:?}");
@@ -177,14 +178,22 @@ fn oracle(c: &Case, acc: &mut Acc) -> CaseResult {
                         ensure!(evs.is_empty(), "{ctx}: read under the reserved nonce reached the cipher");
                         seen_fail = true;
                     } else {
-                        ensure!(matches!(&evs[..], [Ev::Dec { nonce, .. }] if *nonce == n), "{ctx}: cipher saw {evs:?}, expected one decryption under nonce {n}");
+                        // every nonce the cipher is handed is the model counter; a read that fails may
+                        // also be refused before the cipher is reached
+                        ensure!(
+                            matches!(&evs[..], [Ev::Dec { nonce, .. }] if *nonce == n) || (res.is_err() && evs.is_empty()),
+                            "{ctx}: cipher saw {evs:?}, expected one decryption under nonce {n}"
+                        );
                         let should = *kind == 0 && rec.nonce == n && rec.epoch == in_epoch[r];
                         if should {
-                            let l = res.map_err(|x| Fail::new(format!("{ctx}: genuine message under its own nonce rejected: {x:?}")))?;
+                            let l = res.map_err(|x| attribute(&x, format!("{ctx}: genuine message under its own nonce rejected: {x:?}")))?;
                             ensure!(buf[..l] == rec.payload[..], "{ctx}: payload differs");
                             fail_then_ok |= seen_fail;
                         } else {
-                            ensure!(res.is_err(), "{ctx}: accepted (message nonce {}, presented {n}, epochs {}/{})", rec.nonce, rec.epoch, in_epoch[r]);
+                            if res.is_ok() {
+                                // which messages authenticate is C04/C05/C15's business, not a counter rule
+                                return Err(Fail::setup(format!("{ctx}: accepted (message nonce {}, presented {n}, epochs {}/{})", rec.nonce, rec.epoch, in_epoch[r])));
+                            }
                             seen_fail = true;
                         }
                     }
@@ -300,7 +309,8 @@ fn oracle(c: &Case, acc: &mut Acc) -> CaseResult {
                     if *kind == 3 || *kind == 4 {
                         // longer than 65535 bytes / shorter than a tag: rejected, nothing moves
                         ensure!(res.is_err(), "{ctx}: a message of {} bytes was accepted: {res:?}", msg.len());
-                        ensure!(*kind == 4 || evs.is_empty(), "{ctx}: an oversize message reached the cipher: {evs:?}");
+                        // (whether an oversize message reaches the cipher is a framing question, C14)
+                        ensure!(evs.iter().all(|ev| !matches!(ev, Ev::Dec { nonce, .. } if *nonce != n)), "{ctx}: the cipher was handed another nonce than the counter {n}: {evs:?}");
                         seen_fail = true;
                     } else if *kind == 2 {
                         ensure!(res.is_err() && evs.is_empty(), "{ctx}: undersized payload buffer: {res:?} {evs:?}");
@@ -310,15 +320,22 @@ fn oracle(c: &Case, acc: &mut Acc) -> CaseResult {
                         ensure!(evs.is_empty(), "{ctx}: read at the reserved nonce reached the cipher");
                         seen_fail = true;
                     } else {
-                        ensure!(matches!(&evs[..], [Ev::Dec { nonce, .. }] if *nonce == n), "{ctx}: cipher saw {evs:?}, expected one decryption under nonce {n}");
+                        // every nonce the cipher is handed is the model counter; a read that fails may
+                        // also be refused before the cipher is reached
+                        ensure!(
+                            matches!(&evs[..], [Ev::Dec { nonce, .. }] if *nonce == n) || (res.is_err() && evs.is_empty()),
+                            "{ctx}: cipher saw {evs:?}, expected one decryption under nonce {n}"
+                        );
                         let should = *kind == 0 && rec.nonce == n && rec.epoch == in_epoch[r];
                         if should {
-                            let l = res.map_err(|x| Fail::new(format!("{ctx}: the message whose number equals the receiving nonce was rejected: {x:?}")))?;
+                            let l = res.map_err(|x| attribute(&x, format!("{ctx}: the message whose number equals the receiving nonce was rejected: {x:?}")))?;
                             ensure!(buf[..l] == rec.payload[..], "{ctx}: payload differs");
                             rn[r] += 1;
                             fail_then_ok |= seen_fail;
                         } else {
-                            ensure!(res.is_err(), "{ctx}: accepted (message nonce {}, receiving nonce {n}, epochs {}/{})", rec.nonce, rec.epoch, in_epoch[r]);
+                            if res.is_ok() {
+                                return Err(Fail::setup(format!("{ctx}: accepted (message nonce {}, receiving nonce {n}, epochs {}/{})", rec.nonce, rec.epoch, in_epoch[r])));
+                            }
                             seen_fail = true;
                         }
                     }
@@ -383,6 +400,17 @@ fn oracle(c: &Case, acc: &mut Acc) -> CaseResult {
         acc.nontrivial(&(name, c.ops.clone()));
     }
     Ok(())
+}
+
+/// A delivery the model expects to be accepted was rejected: the exhaustion error away from
+/// 2^64-1 is a counter-rule violation; a decryption failure of an honest message is the business of
+/// C02/C05/C15 (not judged here).
+fn attribute(x: &snow::Error, msg: String) -> Fail {
+    if matches!(x, snow::Error::State(_)) {
+        Fail::new(msg)
+    } else {
+        Fail::setup(msg)
+    }
 }
 
 fn scenarios() -> Vec<Vec<Op>> {
